@@ -694,12 +694,13 @@ Proof.
   now rewrite next_init_not_rec in H.
 Qed.
 
-Lemma accepted_over_recovery c tr s e : 0 <= T c -> fresh_run c (init c) tr ->
+Lemma accepted_over_recovery c tr s e : fresh_run c (init c) tr ->
   run c (init c) tr = Some s -> ph s = PReturned e -> over_recovery_ok c tr e = true.
 Proof.
-  intros HT Hf Hrun Hp. pose proof (run_counts _ _ _ _ Hrun) as Hc. cbn in Hc.
+  intros Hf Hrun Hp. unfold over_recovery_ok. destruct (T c <? 0) eqn:HT0; [reflexivity|]. cbn [orb].
+  assert (0 <= T c) as HT by lia. pose proof (run_counts _ _ _ _ Hrun) as Hc. cbn in Hc.
   assert (reach c s) as Hr by (eapply run_reach; eauto; constructor).
-  destruct (over_recovery_state c s e Hr Hp) as [H1 H2]. unfold over_recovery_ok. rewrite <- Hc.
+  destruct (over_recovery_state c s e Hr Hp) as [H1 H2]. rewrite <- Hc.
   assert (exited s = count_recv tr) as Hx by lia. rewrite <- Hx in *.
   destruct e; cbn [err_eqb Bool.eqb];
     try (assert (exited s = 0 \/ exited s <= T c) as H3 by (apply H2; discriminate);
